@@ -176,7 +176,7 @@ func genCase(t *rapid.T, tierB bool) Case {
 				}
 				continue
 			}
-			op := rapid.IntRange(0, 3).Draw(t, "colop")
+			op := rapid.IntRange(0, 4).Draw(t, "colop")
 			switch {
 			case op == 1 && len(u.Cols) > 1:
 				idx := make([]int, len(branches[b].Cols))
@@ -189,6 +189,17 @@ func genCase(t *rapid.T, tierB bool) Case {
 				branches[b].Cols = append(branches[b].Cols, name)
 				for i := range branches[b].Rows {
 					branches[b].Rows[i] = append(branches[b].Rows[i], gen.Cell(fmt.Sprintf("n%d", i%2)))
+				}
+			case op == 4 && tierB && len(nonKey) > 0:
+				// rename a non-key column (for the merge: one column removed, one added)
+				ren := nonKey[rapid.IntRange(0, len(nonKey)-1).Draw(t, "rencol")]
+				name := u.Cols[ren]
+				for i, cn := range branches[b].Cols {
+					if cn == name {
+						cols := append([]string{}, branches[b].Cols...)
+						cols[i] = name + "_renamed"
+						branches[b].Cols = cols
+					}
 				}
 			case op == 3 && tierB && len(nonKey) > 0:
 				drop := nonKey[rapid.IntRange(0, len(nonKey)-1).Draw(t, "dropcol")]
